@@ -532,12 +532,97 @@ def c06(res):
     res.evaluations = n
     res.samples = [{"truncated": open(trace).readline()[:1200]}]
     res.add_rejects(trace, rej, lambda r, f: "backend=%s size=%sx%s tiles=%s perfect=%s threads=%s fails=%s" % (r.get("backend"), r.get("w"), r.get("h"), r.get("tiles"), r.get("perfect"), r.get("threads"), "+".join(sorted(f))))
+    # step by step: the tile decisions of real renders (pix_root / pix_tile hook events) against Render2D.tla
+    ttrace = os.path.join(wd, "tiles2.ndjson")
+    if not run_recorder(res, "raster", ["tiles2", "-", res.tier, ttrace], wd, timeout=3000):
+        return res.finish("recorder crashed")
+    ev, cases, ndrift, unsound, trej = validate_tile_events(res, "Trace_Tiles2", "MC_Render2D", ttrace, wd, "t2")
+    res.validated += cases - len(trej)
+    res.evaluations += cases
+    res.extra["tile_events"] = {"events": ev, "root_tiles": cases, "drift": ndrift, "unsound_answers": unsound}
     res.assumptions = ["reference values come from the interpreter on the unsimplified shape (tied to direct graph evaluation by C01)",
                        "pixels whose reference value is within 2e-5 of zero are not judged"]
     return res.finish("every bitmap of the Render2D.tla bound realised as a union of pixel-aligned rectangles, random bitmaps, random CSG, "
                       "shapes with NaN intervals and the bundled 2D models; sizes incl. non-square and non-multiples of the tile size; "
                       "tile lists incl. non-powers of two; affine and projective views; VM and JIT; no pool and pools of 1..16; "
                       "a case = one image, every pixel compared")
+
+
+def validate_tile_events(res, module, mc_prefix, path, wd, label):
+    """T (stateful, one step per hook event): the recorded tile decisions of a real renderer against the step-wise
+    formulation of Render2D.tla / Render3D.tla (Trace_Tiles2.tla / Trace_Tiles3.tla).  TS, W, H (and D) are constants
+    of the models, so the cases are grouped by configuration (field `cfg`: "TS_8_4_2|w|h|d") and every group is
+    validated by one TLC run.  Returns (events, cases, drifting cases, unsound answers, {case id: clauses})."""
+    import concurrent.futures
+    groups = {}
+    lines_by_id = {}
+    cur = None
+    for ln in open(path):
+        key = ln[ln.index('"cfg":"') + 7:ln.index('"', ln.index('"cfg":"') + 7)]
+        groups.setdefault(key, []).append(ln)
+    if not groups:
+        raise ToolError("no tile events recorded in " + path)
+    jobs = []
+    for k, (key, lines) in enumerate(sorted(groups.items())):
+        parts = key.split("|")
+        d = os.path.join(wd, "%s_%d" % (label, k))
+        os.makedirs(d, exist_ok=True)
+        cfg = os.path.join(d, "tiles.cfg")
+        consts = "TS <- %s W = %s H = %s" % (parts[0], parts[1], parts[2])
+        if module == "Trace_Tiles3":
+            consts += ' D = %s Clamp = "gt-d"' % parts[3]
+        else:
+            consts += " FillMode = %s" % ("FALSE" if parts[3] == "P" else "TRUE")
+        with open(cfg, "w") as f:
+            f.write("SPECIFICATION TSpec\nCONSTANTS %s\nPOSTCONDITION Consumed\nCHECK_DEADLOCK FALSE\n" % consts)
+        pth = os.path.join(d, "events.ndjson")
+        with open(pth, "w") as f:
+            f.writelines(lines)
+        jobs.append((d, cfg, pth, len(lines), key))
+    def one(job):
+        d, cfg, pth, nl, key = job
+        rc, text, dt = tlc(module, cfg, d, workers=1, timeout=3000,
+                           env={"TRACE": pth, "JAVA_TOOL_OPTIONS": "-Xss1g -Xmx3g -Dtlc2.tool.queue.IStateQueue=StateDeque"})
+        c = parse_counts(text)
+        if rc != 0 or "UNCONSUMED" in text or c is None or c[1] != nl + 1:
+            sys.stdout.write(text[-3000:])
+            raise ToolError("%s did not consume %s (rc=%s, states=%s, lines=%d)" % (module, pth, rc, c, nl))
+        return text
+    events = sum(j[3] for j in jobs)
+    cases = sum(1 for lines in groups.values() for ln in lines if '"e":"reset"' in ln)
+    drift, unsound, rejects = {}, 0, {}
+    with concurrent.futures.ThreadPoolExecutor(max_workers=4) as ex:
+        for text in ex.map(one, jobs):
+            for m in re.finditer(r'<<"DRIFT", (-?\d+), "([^"]*)">>', text):
+                drift.setdefault(int(m.group(1)), m.group(2))
+            unsound += len(re.findall(r'<<"UNSOUND"', text))
+            for m in REJECT_RE.finditer(text):
+                rejects.setdefault(int(m.group(1)), set()).update(x.strip().strip('"') for x in m.group(2).split(",") if x.strip())
+    for j in jobs:
+        shutil.rmtree(j[0], ignore_errors=True)
+    if drift:
+        kinds = sorted(set(drift.values()))
+        print("SPEC-DRIFT property=%s %d of %d tile-decision traces leave the step-wise model %s (%s; not a violation)" % (res.prop, len(drift), cases, module, ", ".join(kinds)))
+    if unsound:
+        print("SPEC-DRIFT property=%s %d full / empty tile answers contradict the reference signs of the tile (%s; whether that is observable is decided by the image clauses)" % (res.prop, unsound, module))
+    log("T %s: %d tile events of %d root tiles in %d configurations validated against the step-wise model, %d drift, %d unsound answers, %d rejected" % (module, events, cases, len(jobs), len(drift), unsound, len(rejects)))
+    if rejects and res.tier != "replay":
+        # the replay file of a rejected case is the whole case (reset .. end), not only its first line
+        rdir = os.path.join(ROOT, "replays", res.prop)
+        os.makedirs(rdir, exist_ok=True)
+        for lines in groups.values():
+            cur, buf = None, []
+            for ln in lines + ['{"e":"reset","id":-1}']:
+                if '"e":"reset"' in ln:
+                    if cur in rejects:
+                        pth = os.path.join(rdir, "%s_seed%d_tiles_%s.ndjson" % (res.tier, res.seed, cur))
+                        with open(pth, "w") as f:
+                            f.writelines(buf)
+                        sig = "%s cfg=%s desc=%s fails=%s" % (module, json.loads(buf[0]).get("cfg"), json.loads(buf[0]).get("desc"), "+".join(sorted(rejects[cur])))
+                        res.violations.append((sig, pth))
+                    cur, buf = json.loads(ln).get("id"), []
+                buf.append(ln)
+    return events, cases, len(drift), unsound, {k: sorted(v) for k, v in rejects.items()}
 
 
 def c07(res):
@@ -561,6 +646,14 @@ def c07(res):
     res.evaluations = n
     res.samples = [{"truncated": open(trace).readline()[:1200]}]
     res.add_rejects(trace, rej, lambda r, f: "backend=%s size=%sx%sx%s tiles=%s threads=%s fails=%s" % (r.get("backend"), r.get("w"), r.get("h"), r.get("d"), r.get("tiles"), r.get("threads"), "+".join(sorted(f))))
+    # step by step: the tile decisions of real renders (vox_root / vox_tile / vox_hit hook events) against Render3D.tla
+    ttrace = os.path.join(wd, "tiles3.ndjson")
+    if not run_recorder(res, "raster", ["tiles3", "-", res.tier, ttrace], wd, timeout=3000):
+        return res.finish("recorder crashed")
+    ev, cases, ndrift, unsound, trej = validate_tile_events(res, "Trace_Tiles3", "MC_Render3D", ttrace, wd, "t3")
+    res.validated += cases - len(trej)
+    res.evaluations += cases
+    res.extra["tile_events"] = {"events": ev, "root_tile_columns": cases, "drift": ndrift, "unsound_answers": unsound}
     res.assumptions = ["reference heightmap: interpreter on the unsimplified shape over the whole grid and one root tile beyond its top",
                        "reference normals: the same backend's gradient evaluator on the unsimplified shape (C05 judges gradients)"]
     return res.finish("every voxel set of the Render3D.tla generator bound (2x1x4, 2x2x3; thorough also 1x2x5) realised as voxel-aligned boxes and "
@@ -870,6 +963,16 @@ def replay(prop, path):
             return 1
         print("replay accepted")
         return 0
+    if '"cfg":"TS_' in open(path).readline():                  # tile-decision trace (Trace_Tiles2.tla / Trace_Tiles3.tla)
+        class R: pass
+        r = R(); r.prop, r.tier, r.seed, r.violations = prop, "replay", 0, []
+        mod = "Trace_Tiles3" if prop == "C07" else "Trace_Tiles2"
+        ev, cases, nd, un, rej = validate_tile_events(r, mod, None, os.path.abspath(path), workdir(prop), "replay")
+        if rej:
+            print("VIOLATION property=%s replay=%s  # %s" % (prop, path, rej))
+            return 1
+        print("replay accepted (%d events, %d drifting)" % (ev, nd))
+        return 0
     if open(path).readline().startswith('{"e":"reset"'):      # allocator step trace (Trace_Alloc.tla)
         ne, nd, rej = validate_alloc_events(os.path.abspath(path), workdir(prop), label="replay")
         if rej:
@@ -988,5 +1091,54 @@ def selftest():
             prop, mutate.__name__, not rej_ok, r["id"] in rej_bad, rej_bad.get(r["id"], ""), "ok" if good else "BINDING NOT DEMONSTRATED"))
         if not good:
             bad += 1
+    # tile-decision traces (Trace_Tiles2 / Trace_Tiles3): an altered answer, a dropped tile event and a shifted hit
+    # must make the case leave the step-wise model (DRIFT); an altered final image must be rejected
+    for prop, module, fname in (("C07", "Trace_Tiles3", "tiles3.ndjson"), ("C06", "Trace_Tiles2", "tiles2.ndjson")):
+        ensure(prop)
+        src = os.path.join(workdir(prop), fname)
+        if not os.path.exists(src):
+            log("selftest %s: no tile-decision trace (skipped)" % module)
+            continue
+        cases, cur = [], []
+        for ln in open(src):
+            if '"e":"reset"' in ln and cur:
+                cases.append(cur); cur = []
+            cur.append(ln)
+        cases.append(cur)
+        def corrupt(kind):
+            for c in cases:
+                rs = [json.loads(x) for x in c]
+                tiles = [i for i, r in enumerate(rs) if r["e"] == "tile"]
+                hits = [i for i, r in enumerate(rs) if r["e"] == "hit"]
+                if kind == "answer":
+                    i = next((i for i in tiles if rs[i]["act"] == 2), None)
+                    if i is None: continue
+                    rs[i]["act"] = 1
+                elif kind == "dropped-tile":
+                    if len(tiles) < 3: continue
+                    del rs[tiles[1]]
+                elif kind == "hit":
+                    if not hits: continue
+                    rs[hits[0]]["z"] += 1
+                elif kind == "image":
+                    k = "depth" if "depth" in rs[-1] else "pix"
+                    rs[-1][k][0] = rs[-1][k][0] + 1 if k == "depth" else 1 - rs[-1][k][0]
+                return [json.dumps(r, separators=(",", ":")) + "\n" for r in rs]
+            return None
+        class R: pass
+        for kind in ("answer", "dropped-tile", "hit", "image"):
+            lines = corrupt(kind)
+            if lines is None:
+                continue
+            r = R(); r.prop, r.tier, r.seed, r.violations = prop, "replay", 0, []
+            bf = os.path.join(workdir(prop), "selftest_tiles_bad.ndjson")
+            with open(bf, "w") as f:
+                f.writelines(lines)
+            ev, nc, nd, un, rej = validate_tile_events(r, module, None, bf, workdir(prop), "selftest")
+            good = (len(rej) == 1) if kind == "image" else (nd == 1)
+            done += 1
+            log("selftest %s %s: drift=%d unsound=%d rejected=%s -> %s" % (module, kind, nd, un, rej, "ok" if good else "BINDING NOT DEMONSTRATED"))
+            if not good:
+                bad += 1
     log("selftest: %d corruptions tried, %d not rejected as expected" % (done, bad))
     return 2 if bad else 0
